@@ -217,11 +217,34 @@ def add_sites(rng: random.Random, pkg: packages.Pkg) -> dict[str, list[dict]]:  
         for s in shadow:
             cls_lines.append(f"    {s} = '{mod}.SiteK.{s}'")
         cls_lines.append("    own = 1")
+        # imports written inside the class body (absolute and relative) bind class-level names
+        class_imported: list[str] = []
+        earlier = pkg.order[: pkg.order.index(mod)]
+        for j in range(rng.choice([0, 1, 2])):
+            if not earlier:
+                break
+            src = rng.choice(earlier)
+            src_names = [n for n, k in pkg.defs[src].items() if n != "__all__" and k != "module"]
+            spelled = src
+            rel = packages.relative(pkg, mod, src)
+            if rel is not None and rng.random() < 0.7:
+                spelled = rel
+            if src_names and rng.random() < 0.7:
+                nm = rng.choice(src_names)
+                cls_lines.append(f"    from {spelled} import {nm} as kimp{j}")
+            elif spelled.startswith(".") and "." not in spelled.lstrip(".") and spelled.lstrip("."):
+                dots = spelled[: len(spelled) - len(spelled.lstrip("."))]
+                cls_lines.append(f"    from {dots} import {spelled.lstrip('.')} as kimp{j}")
+            else:
+                cls_lines.append(f"    import {src} as kimp{j}")
+            class_imported.append(f"kimp{j}")
         cls_lines.append("    if TYPE_CHECKING:")
         for i in range(rng.randint(3, 6)):
             e = rng.choice(shadow + ["own"]) if shadow and rng.random() < 0.45 else ref_expr()
             if inherit and rng.random() < 0.3:
                 e = rng.choice(base_members)
+            if class_imported and rng.random() < 0.35:
+                e = rng.choice(class_imported)
             form = rng.choice(["ann", "value", "param", "ret", "default"])
             nm = f"ks{i}"
             if form == "ann":
